@@ -20,7 +20,7 @@ ID = "C07"
 TECHNIQUE = "runtime monitoring: truth-by-construction variants compared with == / !=, oracle re-validation of every variant"
 LEVEL = "exploration"
 RULE = ("random regions of all kinds (polygons int/Fraction/float, circles, Bezier blobs of degree 2-3, mixed-degree "
-        "chains, connected, disjoint, unbounded) x 4-7 equal variants and 3-5 unequal variants; all ordered pairs compared "
+        "chains, two-segment lenses and half disks, connected, disjoint, unbounded) x 4-7 equal variants and 3-5 unequal variants; all ordered pairs compared "
         "with == and != (shapes with shapes, closed curves with closed curves); non-trivial = a region with >= 2 equal "
         "variants and >= 1 unequal variant judged; distinct = distinct case specs")
 ASSUMPTIONS = [
@@ -254,6 +254,10 @@ def case(ctx):
             # few, strongly curved segments (each turns by 120 degrees)
             segs = G.blob_segments(rng, rng.choice([3, 4]), rng.choice([2, 2, 3]), center, 0.8 * size, size, False, bulge=2.2)
             spec = G.ctrl_spec(segs, "float", kind == "U")
+    if kind in "SU" and curved and rng.random() < 0.4:
+        # closed curves of exactly two segments (half disks and lenses): reversing the list of a
+        # two-segment curve gives the same pair of segments, only their direction tells them apart
+        spec, info = G.random_lens(rng, center, size, cw=(kind == "U"))
     case = Case(ctx, {"shape": spec}, "%s-%s" % (kind, "curved" if G.spec_is_curved(spec) else G.spec_num(spec)))
     base = G.build(spec)
     base_reg = S.snap_shape(base)
